@@ -70,6 +70,9 @@ type FuncContract struct {
 	Ghosts       []GhostLoopVar // function-level ghost variables
 	SingleTx     bool           // single_transaction: all database writes happen inside exactly one walletdb.Update
 	GhostRets    []GhostLoopVar // ghostret $v := e: ghost statement executed at every return (results are in scope)
+	Seq          bool           // the function value is a sequence (iter.Seq/Seq2): calling it on a loop body is a loop
+	Yields       []Clause       // what is known about the values a sequence hands to the loop body ($y0, $y1, $k)
+	YieldInvs    []Clause       // on a synthetic range-over-func body: loop invariants over the enclosing function's variables and $k
 	GhostSets    []GhostLoopVar // ghostset $v := e: ghost statement executed on entry of the function (scalar ghost variables)
 	UnblocksOn   []Expr         // every blocking channel operation must be able to fire a receive on one of these channels
 	UnblocksAlso [][]Expr       // further unblocks_on lines: each is an independent requirement of the same kind
@@ -147,7 +150,7 @@ var labelRe = regexp.MustCompile(`^([A-Za-z][A-Za-z0-9_\-]*):(?:[^:]|$)`)
 var clauseKW = map[string]bool{
 	"requires": true, "ensures": true, "modifies": true, "loop": true, "assume-only": true, "pure": true,
 	"inline": true, "assert": true, "assume": true, "props": true, "noframe": true, "fresh": true, "panics_if": true, "ghost": true,
-	"durable": true, "crashstates": true, "havoc": true, "guards": true, "invariant": true, "unblocks_on": true, "ghostset": true, "ghostret": true, "single_transaction": true,
+	"durable": true, "crashstates": true, "havoc": true, "guards": true, "invariant": true, "unblocks_on": true, "ghostset": true, "ghostret": true, "single_transaction": true, "seq": true, "yields": true, "yield": true,
 }
 var topKW = map[string]bool{
 	"func": true, "define": true, "abstract": true, "sort": true, "axiom": true, "ghost": true, "package": true, "ignore": true, "implements": true,
@@ -507,6 +510,27 @@ func ParseSpecFile(path string, pkgPath string) (*SpecFile, error) {
 				return nil, fmt.Errorf("%s:%d: %v", path, it.line, err)
 			}
 			cur.Ghosts = append(cur.Ghosts, GhostLoopVar{Name: n, Type: strings.TrimSpace(r2[:i]), Init: ini})
+		case "seq":
+			cur.Seq = true
+			cur.AssumeOnly = true
+		case "yields":
+			cl, err := mkClause(rest, it.line)
+			if err != nil {
+				return nil, err
+			}
+			cur.Yields = append(cur.Yields, cl)
+		case "yield":
+			// yield invariant [label:] e
+			k2, r2 := firstWord(rest)
+			if k2 != "invariant" {
+				return nil, fmt.Errorf("%s:%d: want 'yield invariant ...'", path, it.line)
+			}
+			cl, err := mkClause(r2, it.line)
+			if err != nil {
+				return nil, err
+			}
+			cur.YieldInvs = append(cur.YieldInvs, cl)
+			cur.Inline = true
 		case "ghostret":
 			n, r2 := firstWord(rest)
 			if !strings.HasPrefix(n, "$") || !strings.HasPrefix(strings.TrimSpace(r2), ":=") {
